@@ -102,22 +102,31 @@ pub fn run_case(c: &Case, base: &[StepRec]) -> Result<String, String> {
 pub fn run(tier: Tier) -> i32 {
     let mut rep = Report::new("C12", tier, "fault_enumeration");
     let deadline = Deadline::after(Duration::from_secs(tier.pick(50, 3000)));
-    let list = scenarios(tier == Tier::Thorough);
+    // full scenarios under default transfers; tiny scenarios additionally under 1-byte and
+    // interrupted-then-1-byte transfer schedules (faults in the middle of write_all/read_exact loops)
+    let mut list: Vec<(String, Scenario, u8)> = scenarios(tier == Tier::Thorough).into_iter().map(|(n, s)| (n, s, 0u8)).collect();
     let policies: &[u8] = match tier {
-        Tier::Quick => &[0],
+        Tier::Quick => &[1],
         Tier::Thorough => &[0, 1, 2],
     };
+    for &p in policies {
+        for (n, s) in crate::scen::mini_scenarios() {
+            list.push((format!("{n}-policy{p}"), s, p));
+        }
+    }
     // build the complete case list
-    let mut cases: Vec<(usize, Case)> = Vec::new();
+    let mut cases: Vec<(usize, Case, String)> = Vec::new();
     let mut bases: Vec<Vec<StepRec>> = Vec::new();
     let mut per_scenario = Vec::new();
     let mut total = Acc::default();
-    for (name, s) in &list {
-        for &policy in policies {
+    for (name, s, policy) in &list {
+        {
+            let policy = *policy;
             let (base, kinds) = baseline(s, policy);
             total.evaluations += 1;
             // when no component fails, no error is reported
             if let Some(bad) = base.iter().find(|r| !matches!(r.out, StepOut::Ok(_))) {
+                total.hist(&format!("violation[{name}:fault-free:policy{policy}]"));
                 total.violation(Violation {
                     signature: format!("{name};fault-free;{policy}"),
                     summary: format!("C12: scenario {name}: the fault-free run reports a failure at `{}`: {:?}", bad.name, bad.out),
@@ -131,7 +140,7 @@ pub fn run(tier: Tier) -> i32 {
             for (i, kind) in kinds.iter().enumerate() {
                 let k = i + 1;
                 let mut push = |kind_s: &str, ce: CreatorErr| {
-                    cases.push((bi, Case { scenario: s.clone(), k, kind: kind_s.to_string(), creator_err: ce, policy }));
+                    cases.push((bi, Case { scenario: s.clone(), k, kind: kind_s.to_string(), creator_err: ce, policy }, name.clone()));
                 };
                 match kind {
                     CallKind::Write | CallKind::Read => {
@@ -157,7 +166,7 @@ pub fn run(tier: Tier) -> i32 {
         }
     }
     let a = par_for(cases.len(), 8, &deadline, |i, acc| {
-        let (bi, case) = &cases[i];
+        let (bi, case, sname) = &cases[i];
         acc.evaluations += 1;
         acc.transitions += 1;
         acc.nontrivial += 1;
@@ -165,6 +174,8 @@ pub fn run(tier: Tier) -> i32 {
             Ok(class) => acc.hist(&format!("err_surfaced[{class}]")),
             Err(msg) => {
                 acc.hist("violation");
+                let what = if msg.contains("panicked") { "panic" } else if msg.contains("reported success") { "success" } else if msg.contains("not carried") { "wrong-error" } else if msg.contains("before the fault") { "earlier-call-differs" } else { "other" };
+                acc.hist(&format!("violation[{sname}:{}:policy{}:{what}]", case.kind, case.policy));
                 acc.violation(Violation {
                     signature: format!("{};k={};{};{:?};p{}", serde_json::to_string(&case.scenario).unwrap(), case.k, case.kind, case.creator_err, case.policy),
                     summary: format!("C12: {msg} [scenario {}]", serde_json::to_string(&case.scenario).unwrap()),
@@ -176,12 +187,12 @@ pub fn run(tier: Tier) -> i32 {
     total.states += bases.iter().map(|b| b.len() as u64).sum::<u64>();
     total.merge(a);
     total.sample(|| json!({"per_scenario": per_scenario}));
-    if let Some((_, c)) = cases.get(cases.len() / 2) {
+    if let Some((_, c, _)) = cases.get(cases.len() / 2) {
         total.sample(|| json!({"example_case": c}));
     }
     rep.acc = total;
-    rep.set("rule", json!("E3 fault enumeration: for every scenario of C11 (plus failing merge function and failing chunk creator) one global counter runs over all component calls (write, flush, read, seek, create, merge); N = calls in the fault-free run; for EVERY k in 1..=N and each error kind (custom-payload Other, PermissionDenied, UnexpectedEof; Interrupted only for flush/seek/create where std does not retry; a merge error; a creator failing with Io, InvalidCompressionType and InvalidFormatVersion) the k-th call fails; thorough repeats this under 1-byte and interrupted-then-1-byte transfer schedules (faults in the middle of write_all/read_exact loops). Oracle: every public call before the fault returns what the fault-free run returned; the public call in progress returns Err (Error::Io with the same kind and payload when no third-party codec sits in between, Error::Merge carrying the injected value, the creator's own variant) — never Ok, never a panic; the fault-free run reports no error. evaluations = single-fault runs; distinct_nontrivial = runs in which the fault fired"));
-    rep.set("bound", json!({"scenarios": list.iter().map(|x| x.0.clone()).collect::<Vec<_>>(), "transfer_policies": policies, "single_faults": cases.len()}));
+    rep.set("rule", json!("E3 fault enumeration: for every scenario of C11 (plus failing merge function and failing chunk creator) one global counter runs over all component calls (write, flush, read, seek, create, merge); N = calls in the fault-free run; for EVERY k in 1..=N and each error kind (custom-payload Other, PermissionDenied, UnexpectedEof; Interrupted only for flush/seek/create where std does not retry; a merge error; a creator failing with Io, InvalidCompressionType and InvalidFormatVersion) the k-th call fails; tiny scenarios are additionally enumerated under 1-byte (quick and thorough) and interrupted-then-1-byte (thorough) transfer schedules, i.e. faults in the middle of write_all/read_exact loops. Oracle: every public call before the fault returns what the fault-free run returned; the public call in progress returns Err (Error::Io with the same kind and payload when no third-party codec sits in between, Error::Merge carrying the injected value, the creator's own variant) — never Ok, never a panic; the fault-free run reports no error. evaluations = single-fault runs; distinct_nontrivial = runs in which the fault fired"));
+    rep.set("bound", json!({"scenarios": list.iter().map(|x| x.0.clone()).collect::<Vec<_>>(), "transfer_policies_on_mini_scenarios": policies, "single_faults": cases.len()}));
     rep.assume("behaviour after a call returned Err is unspecified: the scenario stops at the first error");
     rep.finish()
 }
